@@ -85,6 +85,8 @@ def family():
                                                                             extra_components=gate2("ikr", "x", "1 / (1 + exp(-c.y))", "2 + c.y") + gate2("iks", "x", "c.y / 3", "5 - c.y"))))
     out.append(("comp|three-components-same-gate", mmt({"c.y": 0.5, "a.m": 0.2, "b.m": 0.4, "d.m": 0.6}, "dot(y) = k - y + a.m + b.m * d.m\nk = 2.5\n",
                                                        extra_components=gate2("a", "m", "c.y", "2") + gate2("b", "m", "1 - c.y", "3") + gate2("d", "m", "c.y * c.y", "4"))))
+    for cn, cv in (("zero", "0"), ("one-half", "0.5"), ("negative", "-1"), ("sci", "2e-3"), ("const-expr", "2 * 3"), ("const-ref", "k"), ("zero-float", "0.0")):
+        out.append((f"clamped|{cn}", mmt({"c.x": 1.0, "c.Ki": 140.0, "c.y": 0.5}, f"dot(x) = Ki / 100 - x\ndot(Ki) = {cv}\ndot(y) = k - y * Ki / 140\nk = 2.5\n")))
     out.append(("const|expression", mmt({"c.x": 1.0, "c.y": 0.5}, "dot(x) = k2 * x - k3\ndot(y) = k - y\nk = 2.5\nk2 = 2 * 3\nk3 = k * 2 + k2\nk4 = -1.5\n")))
     out.append(("const|negative-and-sci", mmt({"c.x": -1.0, "c.y": 5e-3}, "dot(x) = k * x + k5\ndot(y) = k - y\nk = -2.5\nk5 = 1.5e-3\n")))
     out.append(("units", mmt({"c.x": 1.0, "c.y": 0.5}, "dot(x) = k * x\n    in [mV/ms]\ndot(y) = k - y\n    in [1/ms]\nk = 2.5\n    in [mS/uF]\n")))
